@@ -1136,6 +1136,129 @@ fn with_watchdog<F: FnOnce() + Send + 'static>(f: F) -> bool {
     if j.is_finished() { let _ = j.join(); true } else { false }
 }
 
+/// C13, concurrent clause on the real code: free-running writers against a small memory limit.
+/// Every thread owns its keys (the only shared thing is the usage counter and its reservation
+/// loop), so each can tell what an admitted or a refused write must have left behind.  A sampler
+/// reads `memory_usage()` all the time: no sample may exceed the limit; at the end usage equals
+/// the live footprints, which equal what the threads' admitted writes add up to.
+fn memrace_case(rng: &mut Rng, out: &mut Out, dir: &str, idx: u64) {
+    use std::sync::atomic::{AtomicBool, AtomicUsize, Ordering as O};
+    feoxdb::verif::clock::pin(WALL);
+    let rs = feoxdb::verif::pure::record_struct_size();
+    let threads = rng.range(3, 8) as usize;
+    let sizes: [usize; 5] = [8, 90, 700, 2600, 9000];
+    // room for a handful of records: the limit is hit all the time
+    let limit = rs * rng.range(2, 12) as usize + rng.range(400, 24_000) as usize;
+    let persistent = rng.chance(1, 3);
+    let path = format!("{}/memrace{}.feox", dir, idx);
+    let _ = std::fs::remove_file(&path);
+    let mut b = FeoxStore::builder().hash_bits(6).enable_ttl(false).max_memory(limit);
+    if persistent { b = b.device_path(path.clone()).file_size(4 << 20).enable_caching(rng.chance(1, 2)); }
+    let store = match b.build() { Ok(s) => Arc::new(s), Err(_) => return };
+    out.count("memory race case");
+    out.count(if persistent { "memory race case: persistent" } else { "memory race case: memory-only" });
+    let stop = Arc::new(AtomicBool::new(false));
+    let high = Arc::new(AtomicUsize::new(0));
+    let sampler = {
+        let (st, stop, high) = (store.clone(), stop.clone(), high.clone());
+        std::thread::spawn(move || {
+            let mut n = 0u64;
+            while !stop.load(O::Relaxed) {
+                let u = st.memory_usage();
+                high.fetch_max(u, O::Relaxed);
+                n += 1;
+            }
+            n
+        })
+    };
+    let barrier = Arc::new(std::sync::Barrier::new(threads));
+    let rounds = rng.range(150, 500);
+    let handles: Vec<_> = (0..threads).map(|t| {
+        let (st, bar) = (store.clone(), barrier.clone());
+        let mut r = Rng::new(rng.next());
+        let prefix = format!("m{}-{}-", idx, t);
+        std::thread::spawn(move || {
+            let mut mine: BTreeMap<Vec<u8>, Vec<u8>> = BTreeMap::new();
+            let mut bad: Vec<String> = vec![];
+            let (mut admitted, mut refused) = (0u64, 0u64);
+            bar.wait();
+            for round in 0..rounds {
+                let key = format!("{}{}", prefix, r.below(5)).into_bytes();
+                let before = mine.get(&key).cloned();
+                if r.chance(7, 10) {
+                    let val = pattern((round as u8) ^ (t as u8), *r.pick(&sizes) + r.below(40) as usize);
+                    let res = if r.chance(1, 4) { st.insert_bytes(&key, bytes::Bytes::from(val.clone())) } else { st.insert(&key, &val) };
+                    match res {
+                        Ok(_) => { admitted += 1; mine.insert(key.clone(), val); }
+                        Err(FeoxError::OutOfMemory) => {
+                            refused += 1;
+                            let now = st.get(&key).ok();
+                            if now != before && bad.len() < 2 {
+                                bad.push(format!("a write of {} refused for memory changed the key: it held {} bytes before, {} after",
+                                    String::from_utf8_lossy(&key), before.as_ref().map(|v| v.len() as i64).unwrap_or(-1), now.as_ref().map(|v| v.len() as i64).unwrap_or(-1)));
+                            }
+                        }
+                        Err(e) => if bad.len() < 2 { bad.push(format!("insert of {} answered {}", String::from_utf8_lossy(&key), err_name(&e))); }
+                    }
+                } else if r.chance(2, 3) {
+                    match st.delete(&key) {
+                        Ok(_) => { mine.remove(&key); }
+                        Err(FeoxError::KeyNotFound) if before.is_none() => {}
+                        Err(e) => if bad.len() < 2 { bad.push(format!("delete of {} (present: {}) answered {}", String::from_utf8_lossy(&key), before.is_some(), err_name(&e))); }
+                    }
+                } else {
+                    let now = st.get(&key).ok();
+                    if now != before && bad.len() < 2 {
+                        bad.push(format!("get of {} returned {} bytes, its only writer last stored {}", String::from_utf8_lossy(&key),
+                            now.as_ref().map(|v| v.len() as i64).unwrap_or(-1), before.as_ref().map(|v| v.len() as i64).unwrap_or(-1)));
+                    }
+                }
+            }
+            (mine, bad, admitted, refused)
+        })
+    }).collect();
+    let t0 = Instant::now();
+    let mut all: BTreeMap<Vec<u8>, Vec<u8>> = BTreeMap::new();
+    let (mut admitted, mut refused) = (0u64, 0u64);
+    let mut stuck = false;
+    for h in handles {
+        while !h.is_finished() && t0.elapsed() < WATCHDOG { std::thread::sleep(Duration::from_millis(1)); }
+        if !h.is_finished() { stuck = true; continue; }
+        if let Ok((mine, bad, a, r)) = h.join() {
+            all.extend(mine);
+            admitted += a; refused += r;
+            for w in bad { out.failures.push(format!("C13\tmemory race case {} (limit {}, {} writers): {}\t-", idx, limit, threads, w)); }
+        }
+    }
+    stop.store(true, O::Relaxed);
+    let samples = sampler.join().unwrap_or(0);
+    if stuck {
+        out.failures.push(format!("C18\tmemory race case {}: a writer did not finish within {:?}\t-", idx, WATCHDOG));
+        std::mem::forget(store);
+        return;
+    }
+    *out.hist.entry("memory race: admitted writes".into()).or_insert(0) += admitted;
+    *out.hist.entry("memory race: refused writes".into()).or_insert(0) += refused;
+    *out.hist.entry("memory race: usage samples".into()).or_insert(0) += samples;
+    let high = high.load(O::Relaxed);
+    if high > limit {
+        out.failures.push(format!("C13\tmemory race case {}: memory_usage() was seen at {} while {} writers ran, the limit is {}\t-", idx, high, threads, limit));
+    }
+    if persistent { let _ = store.flush(); }
+    let usage = store.memory_usage();
+    let want: usize = all.iter().map(|(k, v)| rs + k.len() + v.len()).sum();
+    if usage > limit {
+        out.failures.push(format!("C13\tmemory race case {}: after the writers finished memory_usage() = {} is above the limit {}\t-", idx, usage, limit));
+    }
+    if usage != want || store.len() != all.len() {
+        out.failures.push(format!("C13\tmemory race case {}: after the writers finished memory_usage() = {}, len() = {}; the admitted writes left {} records that add up to {} (limit {})\t-",
+            idx, usage, store.len(), all.len(), want, limit));
+    }
+    report_inv(out, &store, None, "memory race case");
+    drop(store);
+    let _ = std::fs::remove_file(&path);
+}
+
 /// free-running: range scans and reads racing with every kind of update of the scanned keys
 /// (overwrite, CAS, increment-free: values are self-describing `<id>|<writer>|<round>|padding`),
 /// deletes and re-creations.  Every value a scan or a get returns must be one that was written
@@ -1401,6 +1524,11 @@ fn race_case(rng: &mut Rng, out: &mut Out, ctl: &Arc<Ctl>, wl: &Arc<WriteLog>, d
         if let Some(Phase::AtPoint("read_start")) = ph { ph = ctl.resume(0); }
     }
     let parked = matches!(ph, Some(Phase::AtPoint(_)));
+    // deferred variant: the TTL-only generation was queued before the reader started; on a busy machine the
+    // periodic flusher may have written it out (and retired the old extent, unpinned at that time) before the
+    // reader chose its source.  The reader then holds the pin of the NEW extent and `s1` is ordinary free space.
+    let pin_elsewhere = deferred && parked && store.verif_snapshot().iter().find(|r| r.key == key).map(|r| r.sector != 0).unwrap_or(true);
+    if pin_elsewhere { out.count("race on a deferred generation that was flushed before the reader pinned (extent oracle off)"); }
     if mode == 2 && parked {
         *wl.gate.lock().unwrap() = (Some((s1, n1)), 0);
     }
@@ -1429,7 +1557,7 @@ fn race_case(rng: &mut Rng, out: &mut Out, ctl: &Arc<Ctl>, wl: &Arc<WriteLog>, d
         let v = pattern(0x40 + i as u8, *rng.pick(&[100usize, 5000, 9000]));
         if store.insert(&k, &v).is_ok() { fillers.push((k, v)); }
     }
-    if parked && pinned_mode {
+    if parked && pinned_mode && !pin_elsewhere {
         // the background flusher keeps trying to retire the pinned extent
         std::thread::sleep(Duration::from_millis(rng.range(150, 400)));
         if wl.blocked.lock().unwrap().contains(&s1) { out.count("race retirement postponed by the pin"); }
@@ -1437,6 +1565,8 @@ fn race_case(rng: &mut Rng, out: &mut Out, ctl: &Arc<Ctl>, wl: &Arc<WriteLog>, d
         if !hit.is_empty() {
             bad = Some(format!("device writes {:?} landed in the extent {}+{} of a generation while a reader held its pin", hit, s1, n1));
         }
+    } else if parked && pinned_mode {
+        std::thread::sleep(Duration::from_millis(50));
     } else if parked && mode == 2 {
         // the retirer is stopped at its first write into the old extent; the reader is let in
         let st = store.clone();
@@ -1531,7 +1661,9 @@ fn race_case(rng: &mut Rng, out: &mut Out, ctl: &Arc<Ctl>, wl: &Arc<WriteLog>, d
         out.failures.push("C18\tthe reader thread of a race case never finished\t-".into());
     }
     let st = store.clone();
-    if !with_watchdog(move || { let _ = st.flush(); }) {
+    let final_flush_ok = Arc::new(std::sync::atomic::AtomicBool::new(false));
+    let ffo = final_flush_ok.clone();
+    if !with_watchdog(move || { if st.flush().is_ok() { ffo.store(true, O::SeqCst); } }) {
         out.failures.push("C18\tflush() after a read/retirement race did not return\t-".into());
     }
     // everything else is intact
@@ -1541,7 +1673,13 @@ fn race_case(rng: &mut Rng, out: &mut Out, ctl: &Arc<Ctl>, wl: &Arc<WriteLog>, d
             other => { if bad.is_none() { bad = Some(format!("filler key {} reads {:?} after the race", hex(k), other.map(|x| x.len()))); } }
         }
     }
-    report_inv(out, &store, Some(&path), "after a read / retirement race (all calls returned, flush acknowledged)");
+    // (the device is small: with the large fillers a flush may have to answer OutOfSpace; the on-device
+    // invariants are those of an ACKNOWLEDGED flush)
+    if final_flush_ok.load(O::SeqCst) {
+        report_inv(out, &store, Some(&path), "after a read / retirement race (all calls returned, flush acknowledged)");
+    } else {
+        report_inv(out, &store, None, "after a read / retirement race (all calls returned, final flush refused)");
+    }
     if with_mate {
         let got = store.get(&mate).ok();
         if got != mate_now && bad.is_none() {
@@ -1598,6 +1736,9 @@ fn main() {
     }
     for i in 0..get("scanrace", 0) {
         scanrace_case(&mut rng, &mut out, &args.out, i);
+    }
+    for i in 0..get("memrace", 0) {
+        memrace_case(&mut rng, &mut out, &args.out, i);
     }
     for i in 0..get("sweeps", 0) {
         sweep_race_case(&mut rng, &mut out, &ctl, &args.out, i);
